@@ -400,12 +400,15 @@ impl PackageBuilder {
                     path: dest.clone(),
                     desc: "invalid start, expected / or ./",
                 })?;
-            (dest.to_string(), format!("/{}/", parent.to_string_lossy()))
+            (dest.to_string(), format!("/{}", parent.to_string_lossy()))
         } else {
-            (
-                format!(".{}", dest),
-                format!("{}/", parent.to_string_lossy()),
-            )
+            (format!(".{}", dest), parent.to_string_lossy().to_string())
+        };
+        // a directory name ends with a slash; the root directory is that slash alone
+        let dir = if dir.ends_with('/') {
+            dir
+        } else {
+            format!("{}/", dir)
         };
 
         let mut hasher = sha2::Sha256::default();
